@@ -319,7 +319,16 @@ type c03Image struct {
 	Func string
 }
 
+// c03OwnFile reports whether rel (relative to the data directory) is a file rqlite
+// writes with its own code (not the SQLite database/WAL files, not raft.db).
+func c03OwnFile(rel string) bool {
+	b := filepath.Base(rel)
+	return strings.HasPrefix(b, cleanSnapshotName) || b == "meta.json" || strings.HasSuffix(b, ".crc32") ||
+		strings.HasPrefix(b, "REAP_PLAN") || b == "FULL_NEEDED"
+}
+
 type c03Recorded struct {
+	Cuts int // derived in-call cut images
 	History  string
 	ID       string
 	Root     string
@@ -405,6 +414,22 @@ func c03Record(t *testing.T, dir, h string, seq int, dirLoss bool) *c03Recorded 
 			continue
 		}
 		out.Images = append(out.Images, c03Image{Image: im, Func: c03FuncOf(im.Label)})
+		// the call in flight, cut inside (engine/vfs TornVariants), for the files rqlite writes
+		// itself - the marker and its tmp file, meta.json, checksum sidecars, plan and flag
+		// files: 0 / half / all but one of the new bytes - and for removals of directory trees
+		vars, kind, err := rec.TornVariants(im, vfs.TornOptions{Removals: true})
+		if err != nil {
+			panic(fmt.Sprintf("c03 harness: torn variants: %v", err))
+		}
+		if rel, ok := strings.CutPrefix(kind, "write:"); ok && !c03OwnFile(rel) {
+			continue
+		}
+		for _, v := range vars {
+			// the label must not read "after-ack...": the call was cut before it completed
+			v.Label = "cut{" + v.Torn + "}@" + im.Label
+			out.Images = append(out.Images, c03Image{Image: v, Func: c03FuncOf(im.Label)})
+			out.Cuts++
+		}
 	}
 	out.Points, out.Labels = rec.Points()
 	// directory-entry loss (thorough): the marker is renamed into place without a
@@ -413,6 +438,11 @@ func c03Record(t *testing.T, dir, h string, seq int, dirLoss bool) *c03Recorded 
 	// marker as it was before the operation
 	if dirLoss && len(out.Images) > 0 && h != "" {
 		fin := out.Images[len(out.Images)-1]
+		for _, im := range out.Images {
+			if im.Label == "after-ack" {
+				fin = im
+			}
+		}
 		cur, curErr := os.ReadFile(filepath.Join(fin.Dir, cleanSnapshotName))
 		if fin.Label == "after-ack" && (string(cur) != string(markerBefore) || (curErr == nil) != (markerBeforeErr == nil)) {
 			vd := fin.Dir + "-marker-lost"
@@ -652,7 +682,7 @@ func TestVerif_C03(t *testing.T) {
 	if n, err := strconv.Atoi(os.Getenv("C03_DEPTH")); err == nil && n > 0 {
 		depth = n // debugging aid
 	}
-	r.Rule(fmt.Sprintf("every history of length <=%d over {small write, page-heavy write, snapshot, clean restart} on a fresh real single-node Store; crash images = copies of the whole data directory at every instrumented point of the last operation at which its content changed, + one right after the acknowledgement; every image x {as-is, clean_snapshot removed} recovered by New+Open+wait-for-leader+strong read. Distinct = (last operation, function of the crash point, crash-state class, variant, recovery path and outcome); states = images recovered", depth))
+	r.Rule(fmt.Sprintf("every history of length <=%d over {small write, page-heavy write, snapshot, clean restart} on a fresh real single-node Store; crash images = copies of the whole data directory at every instrumented point of the last operation at which its content changed, + one right after the acknowledgement, + for every step that wrote one of rqlite's own files (marker, meta.json, checksum sidecar, plan/flag file) or removed a directory tree the states a kill inside that call leaves (engine/vfs TornVariants); every image x {as-is, clean_snapshot removed} recovered by New+Open+wait-for-leader+strong read. Distinct = (last operation, function of the crash point, crash-state class, variant, recovery path and outcome); states = images recovered", depth))
 	r.Assume("process-crash model: an image is the directory as a killed process leaves it; crash points are rqlite's own steps (statements containing a call in the instrumented files), not steps inside SQLite, bbolt or raft")
 	r.Assume("raft.db is copied as it is at the point (bbolt's commit atomicity is trusted); an image whose raft.db copy fails bbolt's own check is discarded and counted")
 	r.Assume("single node; histories are sequential and quiescent between operations")
@@ -678,7 +708,7 @@ func TestVerif_C03(t *testing.T) {
 
 	var points int64
 	labels := map[string]bool{}
-	nImages, nDiscard, nHist := 0, 0, 0
+	nImages, nDiscard, nHist, nCuts := 0, 0, 0, 0
 	workers := 6
 	// deal the histories out to the shards by cost class of their last operation
 	// (restarts and snapshots yield many more images than writes)
@@ -738,6 +768,7 @@ func TestVerif_C03(t *testing.T) {
 			labels[l] = true
 		}
 		nDiscard += rc.Discard
+		nCuts += rc.Cuts
 		lastOp := "none"
 		if h != "" {
 			lastOp = string(h[len(h)-1])
@@ -797,6 +828,7 @@ func TestVerif_C03(t *testing.T) {
 	r.Add("crash_points_reached", points)
 	r.Add("images", int64(nImages))
 	r.Add("images_discarded_torn_raftdb_copy", int64(nDiscard))
+	r.Add("images_derived_by_cutting_a_call", int64(nCuts))
 	var ls []string
 	for l := range labels {
 		ls = append(ls, l)
